@@ -1,6 +1,7 @@
 -- REGENERATED on every run by /verif/check from the compiled /repo tree. Do not edit.
 namespace SdnsVerif.Gen.C04
 
+def alias_soamin60_s : Nat := 60
 def cut_max_ttl_expire600 : Nat := 600000000000
 def hist_cut_max_ns : Nat := 7200000000000
 def maxCacheTTL_ns : Nat := 86400000000000
